@@ -5,7 +5,7 @@ import math
 import random
 import sys
 
-from common import main
+from common import main, budget
 import frames
 
 PID = "C04"
@@ -128,7 +128,7 @@ def search(item, seed):
                 if why:
                     return dict(function="Ap(core)", input=dict(weights=list(weights), G=G), observed=why)
     rnd = random.Random(seed * 131 + 7)
-    for _ in range(120):
+    for _ in range(budget(120)):
         case = gen_scene(rnd)
         try:
             why = check_scene(case)
